@@ -33,6 +33,8 @@ var allowPrefixes = []string{
 	"(*github.com/cometbft/cometbft/abci/types.",
 	"(github.com/cometbft/cometbft/abci/types.",
 	"(*github.com/cometbft/cometbft/proto/tendermint/types.",
+	"github.com/cosmos/cosmos-sdk/x/bank/types.NewInput",
+	"github.com/cosmos/cosmos-sdk/x/bank/types.NewOutput",
 	"slices.",
 	"sort.Sort",
 	"sort.Stable",
